@@ -23,7 +23,7 @@ package parser
 //@ ensures inv: lexer.linv(p.Lexer) && lexer.lhtml(p.Lexer) && errsok(p)
 //@ ensures cur: p.curToken == old(p.peekToken)
 //@ ensures measure: M(p) <= old(M(p)) - ite(old(p.curToken.Type) != token.EOF || old(p.peekToken.Type) != token.EOF, 1, 0)
-//@ assigns p.curToken, p.peekToken, p.Lexer.ch, p.Lexer.position, p.Lexer.readPosition, p.Lexer.curLine, p.Lexer.inside
+//@ assigns p.curToken, p.peekToken, p.Lexer.ch, p.Lexer.position, p.Lexer.readPosition, p.Lexer.curLine, p.Lexer.tagLine, p.Lexer.inside
 
 //@ func (p *parser) peekError
 //@ requires errsok(p)
@@ -48,7 +48,7 @@ package parser
 //@ ensures inv: lexer.linv(p.Lexer) && lexer.lhtml(p.Lexer) && errsok(p)
 //@ ensures yes: result ==> p.curToken == old(p.peekToken) && p.curToken.Type == t && M(p) <= old(M(p)) - 1 && len(p.errors) == old(len(p.errors))
 //@ ensures no: !result ==> M(p) == old(M(p)) && p.curToken == old(p.curToken) && p.peekToken == old(p.peekToken) && len(p.errors) == old(len(p.errors)) + 1
-//@ assigns p.curToken, p.peekToken, p.errors, p.Lexer.ch, p.Lexer.position, p.Lexer.readPosition, p.Lexer.curLine, p.Lexer.inside
+//@ assigns p.curToken, p.peekToken, p.errors, p.Lexer.ch, p.Lexer.position, p.Lexer.readPosition, p.Lexer.curLine, p.Lexer.tagLine, p.Lexer.inside
 
 //@ func newParser
 //@ requires l != nil && lexer.linv(l) && lexer.lhtml(l)
@@ -59,7 +59,7 @@ package parser
 //@ requires pinv(p)
 //@ ensures inv: lexer.linv(p.Lexer) && lexer.lhtml(p.Lexer) && errsok(p) && M(p) <= old(M(p))
 //@ ensures flag: p.inForBlock == old(p.inForBlock)
-//@ assigns p.curToken, p.peekToken, p.errors, p.inForBlock, p.Lexer.ch, p.Lexer.position, p.Lexer.readPosition, p.Lexer.curLine, p.Lexer.inside, anyobj(ast.Identifier.Callee), anyobj(ast.CallExpression.Callee), anyobj(ast.CallExpression.Block), fresh
+//@ assigns p.curToken, p.peekToken, p.errors, p.inForBlock, p.Lexer.ch, p.Lexer.position, p.Lexer.readPosition, p.Lexer.curLine, p.Lexer.tagLine, p.Lexer.inside, anyobj(ast.Identifier.Callee), anyobj(ast.CallExpression.Callee), anyobj(ast.CallExpression.Block), fresh
 //@ loop 1: invariant lexer.linv(p.Lexer) && lexer.lhtml(p.Lexer) && errsok(p) && M(p) <= old(M(p)) && p.inForBlock == old(p.inForBlock) && program != nil
 //@ loop 1: invariant stmts: forall i int :: 0 <= i && i < len(program.Statements) ==> nnx(program.Statements[i])
 //@ loop 1: decreases ite(p.curToken.Type != token.EOF, 1 + M(p), 0)
@@ -70,7 +70,7 @@ package parser
 //@ ensures flag: p.inForBlock == old(p.inForBlock)
 //@ ensures wf: result == nil || pay(result) != 0
 //@ ensures origc: is(result, "*ast.Identifier") ==> unbox(result, "*ast.Identifier").OriginalCallee != nil
-//@ assigns p.curToken, p.peekToken, p.errors, p.inForBlock, p.Lexer.ch, p.Lexer.position, p.Lexer.readPosition, p.Lexer.curLine, p.Lexer.inside, anyobj(ast.Identifier.Callee), anyobj(ast.CallExpression.Callee), anyobj(ast.CallExpression.Block), fresh
+//@ assigns p.curToken, p.peekToken, p.errors, p.inForBlock, p.Lexer.ch, p.Lexer.position, p.Lexer.readPosition, p.Lexer.curLine, p.Lexer.tagLine, p.Lexer.inside, anyobj(ast.Identifier.Callee), anyobj(ast.CallExpression.Callee), anyobj(ast.CallExpression.Block), fresh
 //@ decreases M(p), 10
 //@ mutual
 
@@ -80,7 +80,7 @@ package parser
 //@ ensures inv: lexer.linv(p.Lexer) && lexer.lhtml(p.Lexer) && errsok(p) && M(p) <= old(M(p))
 //@ ensures flag: p.inForBlock == old(p.inForBlock)
 //@ ensures nn: result != nil
-//@ assigns p.curToken, p.peekToken, p.errors, p.inForBlock, p.Lexer.ch, p.Lexer.position, p.Lexer.readPosition, p.Lexer.curLine, p.Lexer.inside, anyobj(ast.Identifier.Callee), anyobj(ast.CallExpression.Callee), anyobj(ast.CallExpression.Block), fresh
+//@ assigns p.curToken, p.peekToken, p.errors, p.inForBlock, p.Lexer.ch, p.Lexer.position, p.Lexer.readPosition, p.Lexer.curLine, p.Lexer.tagLine, p.Lexer.inside, anyobj(ast.Identifier.Callee), anyobj(ast.CallExpression.Callee), anyobj(ast.CallExpression.Block), fresh
 //@ decreases M(p), 9
 //@ mutual
 
@@ -89,7 +89,7 @@ package parser
 //@ ensures inv: lexer.linv(p.Lexer) && lexer.lhtml(p.Lexer) && errsok(p) && M(p) <= old(M(p))
 //@ ensures flag: p.inForBlock == old(p.inForBlock)
 //@ ensures nn: result != nil
-//@ assigns p.curToken, p.peekToken, p.errors, p.inForBlock, p.Lexer.ch, p.Lexer.position, p.Lexer.readPosition, p.Lexer.curLine, p.Lexer.inside, anyobj(ast.Identifier.Callee), anyobj(ast.CallExpression.Callee), anyobj(ast.CallExpression.Block), fresh
+//@ assigns p.curToken, p.peekToken, p.errors, p.inForBlock, p.Lexer.ch, p.Lexer.position, p.Lexer.readPosition, p.Lexer.curLine, p.Lexer.tagLine, p.Lexer.inside, anyobj(ast.Identifier.Callee), anyobj(ast.CallExpression.Callee), anyobj(ast.CallExpression.Block), fresh
 //@ decreases M(p), 9
 //@ mutual
 
@@ -98,7 +98,7 @@ package parser
 //@ ensures inv: lexer.linv(p.Lexer) && lexer.lhtml(p.Lexer) && errsok(p) && M(p) <= old(M(p))
 //@ ensures flag: p.inForBlock == old(p.inForBlock)
 //@ ensures nn: result != nil
-//@ assigns p.curToken, p.peekToken, p.errors, p.inForBlock, p.Lexer.ch, p.Lexer.position, p.Lexer.readPosition, p.Lexer.curLine, p.Lexer.inside, anyobj(ast.Identifier.Callee), anyobj(ast.CallExpression.Callee), anyobj(ast.CallExpression.Block), fresh
+//@ assigns p.curToken, p.peekToken, p.errors, p.inForBlock, p.Lexer.ch, p.Lexer.position, p.Lexer.readPosition, p.Lexer.curLine, p.Lexer.tagLine, p.Lexer.inside, anyobj(ast.Identifier.Callee), anyobj(ast.CallExpression.Callee), anyobj(ast.CallExpression.Block), fresh
 //@ decreases M(p), 9
 //@ mutual
 
@@ -115,7 +115,7 @@ package parser
 //@ ensures flag: p.inForBlock == old(p.inForBlock)
 //@ ensures wf: result == nil || pay(result) != 0
 //@ ensures origc: is(result, "*ast.Identifier") ==> unbox(result, "*ast.Identifier").OriginalCallee != nil
-//@ assigns p.curToken, p.peekToken, p.errors, p.inForBlock, p.Lexer.ch, p.Lexer.position, p.Lexer.readPosition, p.Lexer.curLine, p.Lexer.inside, anyobj(ast.Identifier.Callee), anyobj(ast.CallExpression.Callee), anyobj(ast.CallExpression.Block), fresh
+//@ assigns p.curToken, p.peekToken, p.errors, p.inForBlock, p.Lexer.ch, p.Lexer.position, p.Lexer.readPosition, p.Lexer.curLine, p.Lexer.tagLine, p.Lexer.inside, anyobj(ast.Identifier.Callee), anyobj(ast.CallExpression.Callee), anyobj(ast.CallExpression.Block), fresh
 //@ decreases M(p), 8
 //@ mutual
 //@ loop 1: invariant lexer.linv(p.Lexer) && lexer.lhtml(p.Lexer) && errsok(p) && M(p) <= old(M(p)) && p.inForBlock == old(p.inForBlock) && leftExp != nil && pay(leftExp) != 0 && (is(leftExp, "*ast.Identifier") ==> unbox(leftExp, "*ast.Identifier").OriginalCallee != nil)
@@ -127,7 +127,7 @@ package parser
 //@ ensures flag: p.inForBlock == old(p.inForBlock)
 //@ ensures wf: result == nil || pay(result) != 0
 //@ ensures origc: is(result, "*ast.Identifier") ==> unbox(result, "*ast.Identifier").OriginalCallee != nil
-//@ assigns p.curToken, p.peekToken, p.errors, p.inForBlock, p.Lexer.ch, p.Lexer.position, p.Lexer.readPosition, p.Lexer.curLine, p.Lexer.inside, anyobj(ast.Identifier.Callee), anyobj(ast.CallExpression.Callee), anyobj(ast.CallExpression.Block), fresh
+//@ assigns p.curToken, p.peekToken, p.errors, p.inForBlock, p.Lexer.ch, p.Lexer.position, p.Lexer.readPosition, p.Lexer.curLine, p.Lexer.tagLine, p.Lexer.inside, anyobj(ast.Identifier.Callee), anyobj(ast.CallExpression.Callee), anyobj(ast.CallExpression.Block), fresh
 //@ decreases M(p), 7
 //@ mutual
 //@ loop 1: invariant lexer.linv(p.Lexer) && lexer.lhtml(p.Lexer) && errsok(p) && M(p) <= old(M(p)) && p.inForBlock == old(p.inForBlock) && id != nil && fresh(id) && orignalCalleAddress != nil && 1 <= i && len(ss) >= 1
@@ -139,7 +139,7 @@ package parser
 //@ ensures flag: p.inForBlock == old(p.inForBlock)
 //@ ensures wf: result == nil || pay(result) != 0
 //@ ensures origc: is(result, "*ast.Identifier") ==> unbox(result, "*ast.Identifier").OriginalCallee != nil
-//@ assigns p.curToken, p.peekToken, p.errors, p.inForBlock, p.Lexer.ch, p.Lexer.position, p.Lexer.readPosition, p.Lexer.curLine, p.Lexer.inside, anyobj(ast.Identifier.Callee), anyobj(ast.CallExpression.Callee), anyobj(ast.CallExpression.Block), fresh
+//@ assigns p.curToken, p.peekToken, p.errors, p.inForBlock, p.Lexer.ch, p.Lexer.position, p.Lexer.readPosition, p.Lexer.curLine, p.Lexer.tagLine, p.Lexer.inside, anyobj(ast.Identifier.Callee), anyobj(ast.CallExpression.Callee), anyobj(ast.CallExpression.Block), fresh
 //@ decreases M(p), 7
 //@ mutual
 
@@ -149,7 +149,7 @@ package parser
 //@ ensures flag: p.inForBlock == old(p.inForBlock)
 //@ ensures wf: result == nil || pay(result) != 0
 //@ ensures origc: is(result, "*ast.Identifier") ==> unbox(result, "*ast.Identifier").OriginalCallee != nil
-//@ assigns p.curToken, p.peekToken, p.errors, p.inForBlock, p.Lexer.ch, p.Lexer.position, p.Lexer.readPosition, p.Lexer.curLine, p.Lexer.inside, anyobj(ast.Identifier.Callee), anyobj(ast.CallExpression.Callee), anyobj(ast.CallExpression.Block), fresh
+//@ assigns p.curToken, p.peekToken, p.errors, p.inForBlock, p.Lexer.ch, p.Lexer.position, p.Lexer.readPosition, p.Lexer.curLine, p.Lexer.tagLine, p.Lexer.inside, anyobj(ast.Identifier.Callee), anyobj(ast.CallExpression.Callee), anyobj(ast.CallExpression.Block), fresh
 //@ decreases M(p), 7
 //@ mutual
 
@@ -159,7 +159,7 @@ package parser
 //@ ensures flag: p.inForBlock == old(p.inForBlock)
 //@ ensures wf: result == nil || pay(result) != 0
 //@ ensures origc: is(result, "*ast.Identifier") ==> unbox(result, "*ast.Identifier").OriginalCallee != nil
-//@ assigns p.curToken, p.peekToken, p.errors, p.inForBlock, p.Lexer.ch, p.Lexer.position, p.Lexer.readPosition, p.Lexer.curLine, p.Lexer.inside, anyobj(ast.Identifier.Callee), anyobj(ast.CallExpression.Callee), anyobj(ast.CallExpression.Block), fresh
+//@ assigns p.curToken, p.peekToken, p.errors, p.inForBlock, p.Lexer.ch, p.Lexer.position, p.Lexer.readPosition, p.Lexer.curLine, p.Lexer.tagLine, p.Lexer.inside, anyobj(ast.Identifier.Callee), anyobj(ast.CallExpression.Callee), anyobj(ast.CallExpression.Block), fresh
 //@ decreases M(p), 7
 //@ mutual
 
@@ -169,7 +169,7 @@ package parser
 //@ ensures flag: p.inForBlock == old(p.inForBlock)
 //@ ensures wf: result == nil || pay(result) != 0
 //@ ensures origc: is(result, "*ast.Identifier") ==> unbox(result, "*ast.Identifier").OriginalCallee != nil
-//@ assigns p.curToken, p.peekToken, p.errors, p.inForBlock, p.Lexer.ch, p.Lexer.position, p.Lexer.readPosition, p.Lexer.curLine, p.Lexer.inside, anyobj(ast.Identifier.Callee), anyobj(ast.CallExpression.Callee), anyobj(ast.CallExpression.Block), fresh
+//@ assigns p.curToken, p.peekToken, p.errors, p.inForBlock, p.Lexer.ch, p.Lexer.position, p.Lexer.readPosition, p.Lexer.curLine, p.Lexer.tagLine, p.Lexer.inside, anyobj(ast.Identifier.Callee), anyobj(ast.CallExpression.Callee), anyobj(ast.CallExpression.Block), fresh
 //@ decreases M(p), 7
 //@ mutual
 
@@ -179,7 +179,7 @@ package parser
 //@ ensures flag: p.inForBlock == old(p.inForBlock)
 //@ ensures wf: result == nil || pay(result) != 0
 //@ ensures origc: is(result, "*ast.Identifier") ==> unbox(result, "*ast.Identifier").OriginalCallee != nil
-//@ assigns p.curToken, p.peekToken, p.errors, p.inForBlock, p.Lexer.ch, p.Lexer.position, p.Lexer.readPosition, p.Lexer.curLine, p.Lexer.inside, anyobj(ast.Identifier.Callee), anyobj(ast.CallExpression.Callee), anyobj(ast.CallExpression.Block), fresh
+//@ assigns p.curToken, p.peekToken, p.errors, p.inForBlock, p.Lexer.ch, p.Lexer.position, p.Lexer.readPosition, p.Lexer.curLine, p.Lexer.tagLine, p.Lexer.inside, anyobj(ast.Identifier.Callee), anyobj(ast.CallExpression.Callee), anyobj(ast.CallExpression.Block), fresh
 //@ decreases M(p), 7
 //@ mutual
 
@@ -189,7 +189,7 @@ package parser
 //@ ensures flag: p.inForBlock == old(p.inForBlock)
 //@ ensures wf: result == nil || pay(result) != 0
 //@ ensures origc: is(result, "*ast.Identifier") ==> unbox(result, "*ast.Identifier").OriginalCallee != nil
-//@ assigns p.curToken, p.peekToken, p.errors, p.inForBlock, p.Lexer.ch, p.Lexer.position, p.Lexer.readPosition, p.Lexer.curLine, p.Lexer.inside, anyobj(ast.Identifier.Callee), anyobj(ast.CallExpression.Callee), anyobj(ast.CallExpression.Block), fresh
+//@ assigns p.curToken, p.peekToken, p.errors, p.inForBlock, p.Lexer.ch, p.Lexer.position, p.Lexer.readPosition, p.Lexer.curLine, p.Lexer.tagLine, p.Lexer.inside, anyobj(ast.Identifier.Callee), anyobj(ast.CallExpression.Callee), anyobj(ast.CallExpression.Block), fresh
 //@ decreases M(p), 7
 //@ mutual
 
@@ -200,7 +200,7 @@ package parser
 //@ ensures flag: p.inForBlock == old(p.inForBlock)
 //@ ensures wf: result == nil || pay(result) != 0
 //@ ensures origc: is(result, "*ast.Identifier") ==> unbox(result, "*ast.Identifier").OriginalCallee != nil
-//@ assigns p.curToken, p.peekToken, p.errors, p.inForBlock, p.Lexer.ch, p.Lexer.position, p.Lexer.readPosition, p.Lexer.curLine, p.Lexer.inside, anyobj(ast.Identifier.Callee), anyobj(ast.CallExpression.Callee), anyobj(ast.CallExpression.Block), fresh
+//@ assigns p.curToken, p.peekToken, p.errors, p.inForBlock, p.Lexer.ch, p.Lexer.position, p.Lexer.readPosition, p.Lexer.curLine, p.Lexer.tagLine, p.Lexer.inside, anyobj(ast.Identifier.Callee), anyobj(ast.CallExpression.Callee), anyobj(ast.CallExpression.Block), fresh
 //@ decreases M(p), 6
 //@ mutual
 
@@ -215,7 +215,7 @@ package parser
 //@ ensures flag: p.inForBlock == old(p.inForBlock)
 //@ ensures wf: result == nil || pay(result) != 0
 //@ ensures origc: is(result, "*ast.Identifier") ==> unbox(result, "*ast.Identifier").OriginalCallee != nil
-//@ assigns p.curToken, p.peekToken, p.errors, p.inForBlock, p.Lexer.ch, p.Lexer.position, p.Lexer.readPosition, p.Lexer.curLine, p.Lexer.inside, anyobj(ast.Identifier.Callee), anyobj(ast.CallExpression.Callee), anyobj(ast.CallExpression.Block), fresh
+//@ assigns p.curToken, p.peekToken, p.errors, p.inForBlock, p.Lexer.ch, p.Lexer.position, p.Lexer.readPosition, p.Lexer.curLine, p.Lexer.tagLine, p.Lexer.inside, anyobj(ast.Identifier.Callee), anyobj(ast.CallExpression.Callee), anyobj(ast.CallExpression.Block), fresh
 //@ decreases M(p), 7
 //@ mutual
 //@ loop 1: invariant lexer.linv(p.Lexer) && lexer.lhtml(p.Lexer) && errsok(p) && M(p) <= old(M(p)) && p.inForBlock == old(p.inForBlock)
@@ -230,7 +230,7 @@ package parser
 //@ ensures flag: p.inForBlock == old(p.inForBlock)
 //@ ensures wf: result == nil || pay(result) != 0
 //@ ensures origc: is(result, "*ast.Identifier") ==> unbox(result, "*ast.Identifier").OriginalCallee != nil
-//@ assigns p.curToken, p.peekToken, p.errors, p.inForBlock, p.Lexer.ch, p.Lexer.position, p.Lexer.readPosition, p.Lexer.curLine, p.Lexer.inside, anyobj(ast.Identifier.Callee), anyobj(ast.CallExpression.Callee), anyobj(ast.CallExpression.Block), fresh
+//@ assigns p.curToken, p.peekToken, p.errors, p.inForBlock, p.Lexer.ch, p.Lexer.position, p.Lexer.readPosition, p.Lexer.curLine, p.Lexer.tagLine, p.Lexer.inside, anyobj(ast.Identifier.Callee), anyobj(ast.CallExpression.Callee), anyobj(ast.CallExpression.Block), fresh
 //@ decreases M(p), 7
 //@ mutual
 
@@ -247,7 +247,7 @@ package parser
 //@ ensures flag: p.inForBlock == old(p.inForBlock)
 //@ ensures wf: result == nil || pay(result) != 0
 //@ ensures origc: is(result, "*ast.Identifier") ==> unbox(result, "*ast.Identifier").OriginalCallee != nil
-//@ assigns p.curToken, p.peekToken, p.errors, p.inForBlock, p.Lexer.ch, p.Lexer.position, p.Lexer.readPosition, p.Lexer.curLine, p.Lexer.inside, anyobj(ast.Identifier.Callee), anyobj(ast.CallExpression.Callee), anyobj(ast.CallExpression.Block), fresh
+//@ assigns p.curToken, p.peekToken, p.errors, p.inForBlock, p.Lexer.ch, p.Lexer.position, p.Lexer.readPosition, p.Lexer.curLine, p.Lexer.tagLine, p.Lexer.inside, anyobj(ast.Identifier.Callee), anyobj(ast.CallExpression.Callee), anyobj(ast.CallExpression.Block), fresh
 //@ decreases M(p), 7
 //@ mutual
 
@@ -260,7 +260,7 @@ package parser
 //@ ensures flag: p.inForBlock == old(p.inForBlock)
 //@ ensures wf: result == nil || pay(result) != 0
 //@ ensures origc: is(result, "*ast.Identifier") ==> unbox(result, "*ast.Identifier").OriginalCallee != nil
-//@ assigns p.curToken, p.peekToken, p.errors, p.inForBlock, p.Lexer.ch, p.Lexer.position, p.Lexer.readPosition, p.Lexer.curLine, p.Lexer.inside, anyobj(ast.Identifier.Callee), anyobj(ast.CallExpression.Callee), anyobj(ast.CallExpression.Block), fresh
+//@ assigns p.curToken, p.peekToken, p.errors, p.inForBlock, p.Lexer.ch, p.Lexer.position, p.Lexer.readPosition, p.Lexer.curLine, p.Lexer.tagLine, p.Lexer.inside, anyobj(ast.Identifier.Callee), anyobj(ast.CallExpression.Callee), anyobj(ast.CallExpression.Block), fresh
 //@ decreases M(p), 7
 //@ mutual
 
@@ -277,7 +277,7 @@ package parser
 //@ ensures flag: p.inForBlock == old(p.inForBlock)
 //@ ensures wf: result == nil || pay(result) != 0
 //@ ensures origc: is(result, "*ast.Identifier") ==> unbox(result, "*ast.Identifier").OriginalCallee != nil
-//@ assigns p.curToken, p.peekToken, p.errors, p.inForBlock, p.Lexer.ch, p.Lexer.position, p.Lexer.readPosition, p.Lexer.curLine, p.Lexer.inside, anyobj(ast.Identifier.Callee), anyobj(ast.CallExpression.Callee), anyobj(ast.CallExpression.Block), fresh
+//@ assigns p.curToken, p.peekToken, p.errors, p.inForBlock, p.Lexer.ch, p.Lexer.position, p.Lexer.readPosition, p.Lexer.curLine, p.Lexer.tagLine, p.Lexer.inside, anyobj(ast.Identifier.Callee), anyobj(ast.CallExpression.Callee), anyobj(ast.CallExpression.Block), fresh
 //@ decreases M(p), 7
 //@ mutual
 //@ loop 1: invariant lexer.linv(p.Lexer) && lexer.lhtml(p.Lexer) && errsok(p) && M(p) <= old(M(p)) && expression != nil
@@ -291,7 +291,7 @@ package parser
 //@ ensures flag: p.inForBlock == old(p.inForBlock)
 //@ ensures wf: result == nil || pay(result) != 0
 //@ ensures origc: is(result, "*ast.Identifier") ==> unbox(result, "*ast.Identifier").OriginalCallee != nil
-//@ assigns p.curToken, p.peekToken, p.errors, p.inForBlock, p.Lexer.ch, p.Lexer.position, p.Lexer.readPosition, p.Lexer.curLine, p.Lexer.inside, anyobj(ast.Identifier.Callee), anyobj(ast.CallExpression.Callee), anyobj(ast.CallExpression.Block), fresh
+//@ assigns p.curToken, p.peekToken, p.errors, p.inForBlock, p.Lexer.ch, p.Lexer.position, p.Lexer.readPosition, p.Lexer.curLine, p.Lexer.tagLine, p.Lexer.inside, anyobj(ast.Identifier.Callee), anyobj(ast.CallExpression.Callee), anyobj(ast.CallExpression.Block), fresh
 //@ decreases M(p), 7
 //@ mutual
 //@ loop 1: invariant lexer.linv(p.Lexer) && lexer.lhtml(p.Lexer) && errsok(p) && M(p) <= old(M(p)) && p.inForBlock == old(p.inForBlock) && expression != nil && nnx(expression.Condition) && expression.Block != nil && (p.curToken.Type == token.RBRACE || p.curToken.Type == token.EOF) && (forall i int :: 0 <= i && i < len(expression.ElseIf) ==> expression.ElseIf[i] != nil)
@@ -303,7 +303,7 @@ package parser
 //@ requires cur: p.curToken.Type != token.EOF
 //@ ensures inv: lexer.linv(p.Lexer) && lexer.lhtml(p.Lexer) && errsok(p) && M(p) <= old(M(p))
 //@ ensures flag: p.inForBlock == old(p.inForBlock)
-//@ assigns p.curToken, p.peekToken, p.errors, p.inForBlock, p.Lexer.ch, p.Lexer.position, p.Lexer.readPosition, p.Lexer.curLine, p.Lexer.inside, anyobj(ast.Identifier.Callee), anyobj(ast.CallExpression.Callee), anyobj(ast.CallExpression.Block), fresh
+//@ assigns p.curToken, p.peekToken, p.errors, p.inForBlock, p.Lexer.ch, p.Lexer.position, p.Lexer.readPosition, p.Lexer.curLine, p.Lexer.tagLine, p.Lexer.inside, anyobj(ast.Identifier.Callee), anyobj(ast.CallExpression.Callee), anyobj(ast.CallExpression.Block), fresh
 //@ decreases M(p), 6
 //@ mutual
 
@@ -314,7 +314,7 @@ package parser
 //@ ensures inv: lexer.linv(p.Lexer) && lexer.lhtml(p.Lexer) && errsok(p) && M(p) <= old(M(p))
 //@ ensures flag: p.inForBlock == old(p.inForBlock)
 //@ ensures nn: result != nil
-//@ assigns p.curToken, p.peekToken, p.errors, p.inForBlock, p.Lexer.ch, p.Lexer.position, p.Lexer.readPosition, p.Lexer.curLine, p.Lexer.inside, anyobj(ast.Identifier.Callee), anyobj(ast.CallExpression.Callee), anyobj(ast.CallExpression.Block), fresh
+//@ assigns p.curToken, p.peekToken, p.errors, p.inForBlock, p.Lexer.ch, p.Lexer.position, p.Lexer.readPosition, p.Lexer.curLine, p.Lexer.tagLine, p.Lexer.inside, anyobj(ast.Identifier.Callee), anyobj(ast.CallExpression.Callee), anyobj(ast.CallExpression.Block), fresh
 //@ decreases M(p), 5
 //@ mutual
 //@ loop 1: invariant lexer.linv(p.Lexer) && lexer.lhtml(p.Lexer) && errsok(p) && M(p) <= old(M(p)) && p.inForBlock == old(p.inForBlock) && block != nil && M(p) < old(M(p))
@@ -329,7 +329,7 @@ package parser
 //@ ensures flag: p.inForBlock == old(p.inForBlock)
 //@ ensures wf: result == nil || pay(result) != 0
 //@ ensures origc: is(result, "*ast.Identifier") ==> unbox(result, "*ast.Identifier").OriginalCallee != nil
-//@ assigns p.curToken, p.peekToken, p.errors, p.inForBlock, p.Lexer.ch, p.Lexer.position, p.Lexer.readPosition, p.Lexer.curLine, p.Lexer.inside, anyobj(ast.Identifier.Callee), anyobj(ast.CallExpression.Callee), anyobj(ast.CallExpression.Block), fresh
+//@ assigns p.curToken, p.peekToken, p.errors, p.inForBlock, p.Lexer.ch, p.Lexer.position, p.Lexer.readPosition, p.Lexer.curLine, p.Lexer.tagLine, p.Lexer.inside, anyobj(ast.Identifier.Callee), anyobj(ast.CallExpression.Callee), anyobj(ast.CallExpression.Block), fresh
 //@ decreases M(p), 7
 //@ mutual
 
@@ -338,7 +338,7 @@ package parser
 //@ ensures inv: lexer.linv(p.Lexer) && lexer.lhtml(p.Lexer) && errsok(p) && M(p) <= old(M(p))
 //@ ensures flag: p.inForBlock == old(p.inForBlock)
 //@ ensures params: forall i int :: 0 <= i && i < len(result) ==> result[i] != nil
-//@ assigns p.curToken, p.peekToken, p.errors, p.inForBlock, p.Lexer.ch, p.Lexer.position, p.Lexer.readPosition, p.Lexer.curLine, p.Lexer.inside, anyobj(ast.Identifier.Callee), anyobj(ast.CallExpression.Callee), anyobj(ast.CallExpression.Block), fresh
+//@ assigns p.curToken, p.peekToken, p.errors, p.inForBlock, p.Lexer.ch, p.Lexer.position, p.Lexer.readPosition, p.Lexer.curLine, p.Lexer.tagLine, p.Lexer.inside, anyobj(ast.Identifier.Callee), anyobj(ast.CallExpression.Callee), anyobj(ast.CallExpression.Block), fresh
 //@ decreases M(p), 6
 //@ mutual
 //@ loop 1: invariant lexer.linv(p.Lexer) && lexer.lhtml(p.Lexer) && errsok(p) && M(p) <= old(M(p)) && p.inForBlock == old(p.inForBlock) && (forall i int :: 0 <= i && i < len(identifiers) ==> identifiers[i] != nil)
@@ -353,7 +353,7 @@ package parser
 //@ ensures flag: p.inForBlock == old(p.inForBlock)
 //@ ensures wf: result == nil || pay(result) != 0
 //@ ensures origc: is(result, "*ast.Identifier") ==> unbox(result, "*ast.Identifier").OriginalCallee != nil
-//@ assigns p.curToken, p.peekToken, p.errors, p.inForBlock, p.Lexer.ch, p.Lexer.position, p.Lexer.readPosition, p.Lexer.curLine, p.Lexer.inside, anyobj(ast.Identifier.Callee), anyobj(ast.CallExpression.Callee), anyobj(ast.CallExpression.Block), fresh
+//@ assigns p.curToken, p.peekToken, p.errors, p.inForBlock, p.Lexer.ch, p.Lexer.position, p.Lexer.readPosition, p.Lexer.curLine, p.Lexer.tagLine, p.Lexer.inside, anyobj(ast.Identifier.Callee), anyobj(ast.CallExpression.Callee), anyobj(ast.CallExpression.Block), fresh
 //@ decreases M(p), 7
 //@ mutual
 //@ loop 1: invariant lexer.linv(p.Lexer) && lexer.lhtml(p.Lexer) && errsok(p) && M(p) <= old(M(p)) && p.inForBlock == old(p.inForBlock) && exp != nil && len(ss) >= 2 && 1 <= i && is(exp.Callee, "*ast.Identifier") && pay(exp.Callee) != 0
@@ -366,7 +366,7 @@ package parser
 //@ ensures inv: lexer.linv(p.Lexer) && lexer.lhtml(p.Lexer) && errsok(p) && M(p) <= old(M(p))
 //@ ensures flag: p.inForBlock == old(p.inForBlock)
 //@ ensures elems: forall i int :: 0 <= i && i < len(result) ==> (result[i] == nil || pay(result[i]) != 0)
-//@ assigns p.curToken, p.peekToken, p.errors, p.inForBlock, p.Lexer.ch, p.Lexer.position, p.Lexer.readPosition, p.Lexer.curLine, p.Lexer.inside, anyobj(ast.Identifier.Callee), anyobj(ast.CallExpression.Callee), anyobj(ast.CallExpression.Block), fresh
+//@ assigns p.curToken, p.peekToken, p.errors, p.inForBlock, p.Lexer.ch, p.Lexer.position, p.Lexer.readPosition, p.Lexer.curLine, p.Lexer.tagLine, p.Lexer.inside, anyobj(ast.Identifier.Callee), anyobj(ast.CallExpression.Callee), anyobj(ast.CallExpression.Block), fresh
 //@ decreases M(p), 6
 //@ mutual
 //@ loop 1: invariant lexer.linv(p.Lexer) && lexer.lhtml(p.Lexer) && errsok(p) && M(p) <= old(M(p)) && p.inForBlock == old(p.inForBlock) && M(p) < old(M(p)) && (forall i int :: 0 <= i && i < len(list) ==> (list[i] == nil || pay(list[i]) != 0))
@@ -379,7 +379,7 @@ package parser
 //@ ensures flag: p.inForBlock == old(p.inForBlock)
 //@ ensures wf: result == nil || pay(result) != 0
 //@ ensures origc: is(result, "*ast.Identifier") ==> unbox(result, "*ast.Identifier").OriginalCallee != nil
-//@ assigns p.curToken, p.peekToken, p.errors, p.inForBlock, p.Lexer.ch, p.Lexer.position, p.Lexer.readPosition, p.Lexer.curLine, p.Lexer.inside, anyobj(ast.Identifier.Callee), anyobj(ast.CallExpression.Callee), anyobj(ast.CallExpression.Block), fresh
+//@ assigns p.curToken, p.peekToken, p.errors, p.inForBlock, p.Lexer.ch, p.Lexer.position, p.Lexer.readPosition, p.Lexer.curLine, p.Lexer.tagLine, p.Lexer.inside, anyobj(ast.Identifier.Callee), anyobj(ast.CallExpression.Callee), anyobj(ast.CallExpression.Block), fresh
 //@ decreases M(p), 7
 //@ mutual
 
@@ -392,7 +392,7 @@ package parser
 //@ ensures flag: p.inForBlock == old(p.inForBlock)
 //@ ensures wf: result == nil || pay(result) != 0
 //@ ensures origc: is(result, "*ast.Identifier") ==> unbox(result, "*ast.Identifier").OriginalCallee != nil
-//@ assigns p.curToken, p.peekToken, p.errors, p.inForBlock, p.Lexer.ch, p.Lexer.position, p.Lexer.readPosition, p.Lexer.curLine, p.Lexer.inside, anyobj(ast.Identifier.Callee), anyobj(ast.CallExpression.Callee), anyobj(ast.CallExpression.Block), fresh
+//@ assigns p.curToken, p.peekToken, p.errors, p.inForBlock, p.Lexer.ch, p.Lexer.position, p.Lexer.readPosition, p.Lexer.curLine, p.Lexer.tagLine, p.Lexer.inside, anyobj(ast.Identifier.Callee), anyobj(ast.CallExpression.Callee), anyobj(ast.CallExpression.Block), fresh
 //@ decreases M(p), 7
 //@ mutual
 
@@ -403,7 +403,7 @@ package parser
 //@ ensures flag: p.inForBlock == old(p.inForBlock)
 //@ ensures wf: result == nil || pay(result) != 0
 //@ ensures origc: is(result, "*ast.Identifier") ==> unbox(result, "*ast.Identifier").OriginalCallee != nil
-//@ assigns p.curToken, p.peekToken, p.errors, p.inForBlock, p.Lexer.ch, p.Lexer.position, p.Lexer.readPosition, p.Lexer.curLine, p.Lexer.inside, anyobj(ast.Identifier.Callee), anyobj(ast.CallExpression.Callee), anyobj(ast.CallExpression.Block), fresh
+//@ assigns p.curToken, p.peekToken, p.errors, p.inForBlock, p.Lexer.ch, p.Lexer.position, p.Lexer.readPosition, p.Lexer.curLine, p.Lexer.tagLine, p.Lexer.inside, anyobj(ast.Identifier.Callee), anyobj(ast.CallExpression.Callee), anyobj(ast.CallExpression.Block), fresh
 //@ decreases M(p), 7
 //@ mutual
 //@ loop 1: invariant lexer.linv(p.Lexer) && lexer.lhtml(p.Lexer) && errsok(p) && M(p) <= old(M(p)) && p.inForBlock == old(p.inForBlock) && hash != nil && hash.Pairs != nil && (p.curToken.Type != token.EOF || p.peekToken.Type != token.EOF) && (forall i int :: 0 <= i && i < len(hash.Order) ==> nnx(hash.Order[i]) && has(hash.Pairs, hash.Order[i])) && (forall k ast.Expression :: has(hash.Pairs, k) ==> nnx(k) && wfx(hash.Pairs[k]))
@@ -418,7 +418,7 @@ package parser
 //@ ensures flag: p.inForBlock == old(p.inForBlock)
 //@ ensures wf: result == nil || pay(result) != 0
 //@ ensures origc: is(result, "*ast.Identifier") ==> unbox(result, "*ast.Identifier").OriginalCallee != nil
-//@ assigns p.curToken, p.peekToken, p.errors, p.inForBlock, p.Lexer.ch, p.Lexer.position, p.Lexer.readPosition, p.Lexer.curLine, p.Lexer.inside, anyobj(ast.Identifier.Callee), anyobj(ast.CallExpression.Callee), anyobj(ast.CallExpression.Block), fresh
+//@ assigns p.curToken, p.peekToken, p.errors, p.inForBlock, p.Lexer.ch, p.Lexer.position, p.Lexer.readPosition, p.Lexer.curLine, p.Lexer.tagLine, p.Lexer.inside, anyobj(ast.Identifier.Callee), anyobj(ast.CallExpression.Callee), anyobj(ast.CallExpression.Block), fresh
 
 //@ func (p *parser) confrimIfCondition
 //@ requires pinv(p)
@@ -426,7 +426,7 @@ package parser
 //@ requires vwf: v == nil || pay(v) != 0
 //@ ensures inv: lexer.linv(p.Lexer) && lexer.lhtml(p.Lexer) && errsok(p) && M(p) <= old(M(p))
 //@ ensures flag: p.inForBlock == old(p.inForBlock)
-//@ assigns p.curToken, p.peekToken, p.errors, p.inForBlock, p.Lexer.ch, p.Lexer.position, p.Lexer.readPosition, p.Lexer.curLine, p.Lexer.inside, anyobj(ast.Identifier.Callee), anyobj(ast.CallExpression.Callee), anyobj(ast.CallExpression.Block), fresh
+//@ assigns p.curToken, p.peekToken, p.errors, p.inForBlock, p.Lexer.ch, p.Lexer.position, p.Lexer.readPosition, p.Lexer.curLine, p.Lexer.tagLine, p.Lexer.inside, anyobj(ast.Identifier.Callee), anyobj(ast.CallExpression.Callee), anyobj(ast.CallExpression.Block), fresh
 
 //@ func Parse
 //@ trusted
